@@ -167,6 +167,9 @@ pub fn api(ctx: &mut Ctx) {
         ids.push(0);
         ids.push(99);
         let mut ops: Vec<Op> = vec![Op::Snapshot];
+        // the third weight value (one ulp above the creation weight) multiplies the state space: in the thorough
+        // tier it can be introduced by the first six operations of a history only
+        let near_ok = !ctx.tier_thorough || s.hist.len() < 6;
         if wide {
             // the wide family concentrates on growth: nodes are added first, then only edge additions from
             // node 1 and removals, so that graphs with 4-5 nodes and nodes of out-degree >= 3 are reached
@@ -185,6 +188,9 @@ pub fn api(ctx: &mut Ctx) {
                     ops.push(Op::RemoveNode(last));
                     ops.push(Op::RemoveEdge(first, last));
                     ops.push(Op::SetWeight(first, last, 1.5));
+                    if near_ok {
+                        ops.push(Op::SetWeight(first, last, f32::from_bits(0.5f32.to_bits() + 1)));
+                    }
                     ops.push(Op::SetState(last, 1));
                 }
             }
@@ -206,6 +212,10 @@ pub fn api(ctx: &mut Ctx) {
                 ops.push(Op::AddEdge(*a, *b, 0.5));
                 ops.push(Op::RemoveEdge(*a, *b));
                 ops.push(Op::SetWeight(*a, *b, 1.5));
+                // one ulp above the weight edges are created with
+                if near_ok {
+                    ops.push(Op::SetWeight(*a, *b, f32::from_bits(0.5f32.to_bits() + 1)));
+                }
             }
         }
         if wide {
@@ -313,6 +323,7 @@ fn actions(ids: &[i32]) -> Vec<Act> {
             // origin second, destination top
             v.push(act("GRAPH.EDGE*ADD", vec![*b, *a], vec![0.5], vec![], vec![]));
             v.push(act("GRAPH.EDGE*SETWEIGHT", vec![*b, *a], vec![1.5], vec![], vec![]));
+            v.push(act("GRAPH.EDGE*SETWEIGHT", vec![*b, *a], vec![f32::from_bits(0.5f32.to_bits() + 1)], vec![], vec![]));
             v.push(act("GRAPH.EDGE*GETWEIGHT", vec![*b, *a], vec![], vec![], vec![]));
             for p in [0, 1, 2] {
                 v.push(act("GRAPH.EDGE*HISTORY", vec![p, *b, *a], vec![], vec![], vec![]));
